@@ -48,6 +48,7 @@ let parse_op tok : op =
   | ["nu"; sym] -> Mut (MNewUnit (cz sym))
   | ["nd"; f] -> Mut (MNewAttrDef (zlist f))
   | ["ns"; t; u] -> Mut (MNewSig (cz t, cz u))
+  | ["nx"; gs] -> Mut (MNewMux (List.map zlist (String.split_on_char '/' gs)))
   | ["sa"; sg; a] -> Mut (MSigAssignAttr (cn sg, cz a))
   | ["ma"; m; a] -> Mut (MMsgAssignAttr (cn m, cz a))
   | ["mr"; m; n; i] -> Mut (MMsgAddRecv (cn m, cn n, cn i))
@@ -74,6 +75,9 @@ let parse_op tok : op =
   | ["Rtf"; t] -> Ro (RTypeFields (cn t))
   | ["Ruf"; u] -> Ro (RUnitFields (cn u))
   | ["Rad"; a] -> Ro (RAttrDef (cn a))
+  | ["Rsg"; sg] -> Ro (RSigGroups (cn sg))
+  | ["Rmf"; m] -> Ro (RMsgFields (cn m))
+  | ["Rnb"] -> Ro RNetBuses
   | _ -> failwith ("bad op " ^ tok)
 
 let render res st =
